@@ -46,6 +46,10 @@ impl Distribution for DiscreteUniform {
     type Output = f64;
     /// Samples from the given discrete uniform distribution.
     fn sample(&self) -> f64 {
+        // a single-point support is valid (lower == upper), but the range sampler requires max > min
+        if self.lower == self.upper {
+            return self.lower as f64;
+        }
         alea::i64_in_range(self.lower, self.upper) as f64
     }
 }
